@@ -285,7 +285,7 @@ BAD = {"BuildpackApi": '"x"', "BuildpackId": '"app"', "BuildpackVersion": '"1.2"
 GOOD_TABLE = {"Buildpack": 'id = "a/b"\nversion = "1.2.3"', "License": 'type = "MIT"', "Order": '[[{p}.group]]\nid = "a/b"\nversion = "1.2.3"', "Group": 'id = "a/b"\nversion = "1.2.3"',
               "BuildpackTarget": 'os = "linux"', "Distro": 'name = "u"\nversion = "1"', "Stack": 'id = "*"', "Entry": 'name = "n"', "FreeForm": 'k = "v"',
               "PackageDescriptorBuildpackReference": 'uri = "."', "PackageDescriptorDependency": 'uri = "docker://x/y"', "Platform": 'os = "linux"',
-              "Label": 'key = "k"\nvalue = "v"', "Process": 'type = "web"\ncommand = ["c"]', "Slice": 'path-globs = ["a"]'}
+              "Label": 'key = "k"\nvalue = "v"', "Process": 'type = "web"\ncommand = ["c"]', "Slice": 'paths = ["a"]'}
 BAD_TABLE = {k: 'zz_unknown = 1' for k in GOOD_TABLE}
 BAD_TABLE["FreeForm"] = None
 
